@@ -304,6 +304,26 @@ theorem sw_state_of_fromListG {typed : Bool} {sa : String → Atom} {ds : Fields
     cases h
     exact ⟨nx, im, rfl⟩
 
+/-- a non-array `"nodes"` value that loads (the empty string, the empty object) gives what the empty list gives. -/
+theorem sw_oddNodes_ok {typed : Bool} {sa : String → Atom} {ds : Fields → DRes} {hdr : Fields} {nd : JVal} {t : Tree} {fm : Fields}
+    (h : oddNodes typed sa ds hdr nd = .ok (t, fm)) : fromListG typed sa ds [] = .ok t := by
+  cases nd with
+  | str s =>
+    simp only [oddNodes] at h
+    split at h
+    · cases hf : fromListG typed sa ds [] with
+      | error e => rw [hf] at h; cases h
+      | ok t' => rw [hf] at h; cases h; rfl
+    · cases h
+  | obj l =>
+    simp only [oddNodes] at h
+    split at h
+    · cases hf : fromListG typed sa ds [] with
+      | error e => rw [hf] at h; cases h
+      | ok t' => rw [hf] at h; cases h; rfl
+    · split at h <;> cases h
+  | _ => simp [oddNodes] at h
+
 /-- a successful `load` went through the two loops. -/
 theorem sw_loadJ_ok {typed : Bool} {sa : String → Atom} {ds : Fields → DRes} {doc : JVal} {t : Tree} {fm : Fields}
     (h : loadJ typed sa ds doc = .ok (t, fm)) :
@@ -340,7 +360,11 @@ theorem sw_loadJ_ok {typed : Bool} {sa : String → Atom} {ds : Fields → DRes}
                       rw [hf] at h
                       cases h
                       exact ⟨_, _, _, rows, hd, hf⟩
-          | _ => simp [hm, hn] at h
+          | _ =>
+            simp only [hm, hn] at h
+            split at h
+            · exact ⟨[], [], [], [], rfl, sw_oddNodes_ok h⟩
+            · cases h
         | _ => simp [hm, hn] at h
   | _ => simp [loadJ] at h
 
